@@ -306,6 +306,14 @@ def d5_cohesion_sampler(ctx):
     tg = sorted(astx.u(t) for d in dels for t in d.targets)
     ctx.check(tg == ["blocs[bloc_index]", "values[bloc_index]"] and len({id(pm.get(d)) for d in dels}) == 1, f, dels[0] if dels else f.node,
               "an exhausted slate is deleted from both lists at the same index", str(tg), f"deletions are {tg}")
+    # a slate is struck exactly when the ballot holds as many of its slots as it has supported candidates
+    Nd = Normalizer(f.node, inline=False, int_atoms=lambda a: True)
+    if dels:
+        got = {l for l in literals(Nd.conj(astx.path_condition(f.node, dels[0], pm, carried=False)))}
+        want = literals(Normalizer(None, inline=False, int_atoms=lambda a: True).conj(
+            [(ast.parse(f"ballot_type.count(bloc_type) == len({f.params[0]}[bloc_type])", mode="eval").body, True)]))
+        ctx.check_shape(got == want, f, dels[0], "a slate is exhausted when its count on the ballot equals its number of supported candidates", str(sorted(got)),
+                        f"slates are struck under {sorted(got)}; documented {sorted(want)}")
     ren = [st for st, dv in astx.defs_of(f.node, "values") if isinstance(dv, astx.LCOMP)]
     good = False
     if len(ren) == 1:
@@ -338,7 +346,9 @@ def d5_cohesion_sampler(ctx):
         pos = elp.target.elts[0].id if elp is not None and astx.call_name(elp.iter) == "enumerate" and isinstance(elp.target, ast.Tuple) and len(elp.target.elts) == 2 \
             and isinstance(elp.target.elts[0], ast.Name) else "i"
         stored = elp is not None and any(isinstance(n, ast.Assign) and astx.u(n.targets[0]) == f"ballot_type[{pos}]" for n in elp.body)
-        good = okexp and stored and after == [f"ballot_type[{pos} + 1:] = {v}", "break"] and any("total_value_sum" in l for l in lits) and dv.lineno < sh[0].lineno
+        zero_case = literals(Normalizer(None, inline=False, int_atoms=lambda a: True).conj([(ast.parse("total_value_sum == 0 and len(values) > 0", mode="eval").body, True)]))
+        own = literals(Normalizer(f.node, inline=False, int_atoms=lambda a: True).conj(astx.path_condition(f.node, sh[0], pm, carried=False)[-1:]))
+        good = okexp and stored and own == zero_case and after == [f"ballot_type[{pos} + 1:] = {v}", "break"] and any("total_value_sum" in l for l in lits) and dv.lineno < sh[0].lineno
     ctx.check(good, f, sh[0] if sh else f.node, "zero-cohesion tail: one slot per remaining candidate, the slots shuffled uniformly, written after position i, round stops", "",
               "the completion of a ballot among zero-cohesion slates changed (slots must be expanded per candidate BEFORE shuffling)")
     wb = prog.nested_func(f, "which_bin")
@@ -525,6 +535,7 @@ RULES = [
 
 BG = "src/votekit/ballot_generator.py"
 FAULTS = [
+    ("cohesion sampler strikes a slate one slot late", [(BG, "            if ballot_type.count(bloc_type) == len(\n                slate_to_non_zero_candidates[bloc_type]\n            ):", "            if ballot_type.count(bloc_type) > len(\n                slate_to_non_zero_candidates[bloc_type]\n            ):")], "C16.D5"),
     ("AC rebinding again", [(BG, "                bloc_order = list(\n                    np.random.choice(\n                        bloc_cands,", "                bloc_cands = list(\n                    np.random.choice(\n                        bloc_cands,")], "C16.D1"),
     ("PL values sorted", [(BG, "            pref_interval_values = [\n                self.pref_interval_by_bloc[bloc].interval[c] for c in non_zero_cands\n            ]", "            pref_interval_values = sorted([\n                self.pref_interval_by_bloc[bloc].interval[c] for c in non_zero_cands\n            ], reverse=True)")], "C16.D1"),
     ("cumulative support from zero-cands list", [(BG, "cand_support_vec = [pref_interval.interval[cand] for cand in non_zero_cands]", "cand_support_vec = list(pref_interval.interval.values())")], "C16.D1"),
